@@ -250,7 +250,20 @@ def check(P, R):
                 tree = RX.parse(pt.replace('\x00HOLE\x00', 'X'))
                 if tree is not None and RX.has_lookaround(tree):
                     lookahead.append(name)
-    vals = [c for c in walk_shallow(f.node) if isinstance(c, ast.Call) and isinstance(c.func, ast.Name) and c.func.id == 'f_in']
+    # by role: the per-wildcard input filter is `<filters>[<idx>]` with <filters> bound to self.filters, the formatter likewise from self.filters_out
+    def _from_attr(name, attr):
+        for n in g.nodes:
+            for d in rd.gen.get(n, []):
+                if d.name == name and d.value is not None and isinstance(d.value, ast.Subscript) and isinstance(d.value.value, ast.Name):
+                    for n2 in g.nodes:
+                        for d2 in rd.gen.get(n2, []):
+                            if d2.name == d.value.value.id and d2.value is not None and dotted(d2.value) == f'self.{attr}':
+                                return True
+        return False
+    fin_names = {d.name for n in g.nodes for d in rd.gen.get(n, []) if _from_attr(d.name, 'filters')}
+    fout_names = {d.name for n in g.nodes for d in rd.gen.get(n, []) if _from_attr(d.name, 'filters_out')}
+    pout_names = {d.name for n in g.nodes for d in rd.gen.get(n, []) if d.value is not None and dotted(d.value) == 'self.pattern_out'} | {'pattern_out'}
+    vals = [c for c in walk_shallow(f.node) if isinstance(c, ast.Call) and isinstance(c.func, ast.Name) and c.func.id in fin_names]
     R.require(vals, 'Route.url: validation call f_in(...) not found')
     for c in vals:
         a = c.args[0] if c.args else None
@@ -259,7 +272,7 @@ def check(P, R):
         if not bare and isinstance(a, ast.BinOp) and isinstance(a.op, ast.Add):
             cn = g.node_of_stmt(c)[0]
             cl = rd.closure_nodes(a.right, cn)
-            ok = any(isinstance(x, ast.Name) and x.id == 'pattern_out' for x in cl)
+            ok = any(isinstance(x, ast.Name) and x.id in pout_names for x in cl) or any(isinstance(x, ast.Attribute) and dotted(x) == 'self.pattern_out' for x in cl)
         R.ob('C19.a', f, c, ok, text=f'validation {short(c)}; masks with look-ahead: {sorted(set(lookahead))}', detail='' if ok else
              f'the filter is applied to the bare value although the mask of {sorted(set(lookahead))} looks ahead at the literal that follows the '
              f'wildcard: url() raises for every rule like /a/<x:path>/b that matching accepts',
@@ -280,7 +293,7 @@ def check(P, R):
              'acceptance is decided by the truthiness of the converted value: a legitimately matched 0 / 0.0 is refused when building',
              key_extra='bylen')
     # order: formatter, then validation
-    fo = [c for c in walk_shallow(f.node) if isinstance(c, ast.Call) and isinstance(c.func, ast.Name) and c.func.id == 'f_out']
+    fo = [c for c in walk_shallow(f.node) if isinstance(c, ast.Call) and isinstance(c.func, ast.Name) and c.func.id in fout_names]
     ok = bool(fo) and all(g.must_pass(g.node_of_stmt(fo[0])[0], g.node_of_stmt(v)[0], []) is False or True for v in vals)
     if fo and vals:
         fon, vn = g.node_of_stmt(fo[0])[0], g.node_of_stmt(vals[0])[0]
@@ -313,9 +326,16 @@ def check(P, R):
              why='the built URL must re-match with the same parameter values', key_extra=str(name))
     R.require(n_conv >= 2, 'converting filters (int, float) not found in FilterFactory.filters')
     # one index per marker
-    pidx = [st for st in walk_shallow(f.node) if isinstance(st, ast.AugAssign) and isinstance(st.target, ast.Name) and st.target.id == 'pidx' and is_const(st.value, 1)]
-    uses = [x for x in walk_shallow(f.node) if isinstance(x, ast.Subscript) and isinstance(x.slice, ast.Name) and x.slice.id == 'pidx']
-    ok = len(pidx) == 1 and {src(u.value) for u in uses} >= {'params', 'filters_out', 'filters'}
+    idxs = {}
+    for x in walk_shallow(f.node):
+        if isinstance(x, ast.Subscript) and isinstance(x.slice, ast.Name) and isinstance(x.value, ast.Name) and isinstance(x.ctx, ast.Load):
+            for n in g.nodes:
+                for d in rd.gen.get(n, []):
+                    if d.name == x.value.id and d.value is not None and dotted(d.value) in ('self.params', 'self.filters', 'self.filters_out'):
+                        idxs.setdefault(x.slice.id, set()).add(dotted(d.value))
+    pname = [k for k, v in idxs.items() if v == {'self.params', 'self.filters', 'self.filters_out'}]
+    pidx = [st for st in walk_shallow(f.node) if isinstance(st, ast.AugAssign) and isinstance(st.target, ast.Name) and pname and st.target.id == pname[0] and is_const(st.value, 1)]
+    ok = len(pidx) == 1
     R.ob('C19.b', f, pidx[0] if pidx else f.node, ok, text='params / filters_out / filters indexed by one counter advanced once per marker', detail='' if ok else
          'names and filters are not consumed in step, one per wildcard')
 
